@@ -205,6 +205,15 @@ class Program:
             for p in ast.walk(mod.tree):
                 for c in ast.iter_child_nodes(p):
                     mod.parents[id(c)] = p
+        def again() -> None:
+            if normalize.refresh_mutable({rel: m.tree for rel, m in self.modules.items()}):
+                self.normalized.append('write-once fields recomputed after the structural steps; copy propagation repeated')
+                for mod in self.modules.values():
+                    mod.parents.clear()
+                    for p in ast.walk(mod.tree):
+                        for c in ast.iter_child_nodes(p):
+                            mod.parents[id(c)] = p
+        safely('write-once-fields', allm, again)
         for mod in self.modules.values():
             self._imports(mod)
         for mod in self.modules.values():
